@@ -169,7 +169,8 @@ def run_1090(case):
     fails = []
     items, stream, segs = materialise(case)
     w = expected_w(items, len(stream))
-    s = Dump1090Session("c16", opts=["--debug"] if case.get("dbg") else [])
+    # (--panic-display only concerns frames without a text form; none of the pool's are)
+    s = Dump1090Session("c16", opts=(["--debug"] if case.get("dbg") else []) + (["--panic-display"] if case.get("pdisp") else []))
     try:
         s.srv.send_segments(segs)
         sent = SENTINELS[0].hex()
@@ -268,8 +269,16 @@ def run_radar(case):
                 if not good and rc is not None and rc == 0:
                     fails.append(("C16/radar/lost_before_disconnect", f"lines delivered before the disconnect: expected {len(wb)}, processed {len(got)}"))
                 return fails, w
-            # retry: radar must reconnect
-            if not s.srv.accept(12.0):
+            # retry: radar must reconnect - also when the server is unreachable for a while in
+            # between (connection attempts that time out instead of being refused)
+            if drop.get("stall"):
+                s.srv.stall()
+                time.sleep(12.0)
+                s.srv.unstall()
+                if not s.alive():
+                    fails.append(("C16/radar/terminated_on_disconnect", f"radar --retry-tcp terminated while the server was unreachable (connection attempts timing out): {s.stderr()[-300:]}"))
+                    return fails, w
+            if not (s.srv.accept_real(30.0) if drop.get("stall") else s.srv.accept(12.0)):
                 if not s.alive():
                     fails.append(("C16/radar/terminated_on_disconnect", f"radar --retry-tcp terminated after the disconnect: {s.stderr()[-300:]}"))
                     return fails, w
@@ -345,6 +354,10 @@ def classify(case):
     items, stream, segs = materialise(case)
     spans = line_spans(items)
     cls = [f"client:{case['client']}"]
+    if case["client"] == "1090" and case.get("pdisp"):
+        cls.append("1090 --panic-display")
+    if case["client"] == "1090" and case.get("dbg"):
+        cls.append("1090 --debug")
     kinds = [x[0] for x in items]
     bad_then_good = any(k == "b" and "g" in kinds[i + 1:] for i, k in enumerate(kinds))
     cut_in_good_slow = False
@@ -391,6 +404,7 @@ def worker(args):
         "drop": drop,
         "limit": st.sampled_from([False, False, True]),
         "dbg": st.sampled_from([False, False, False, True]),
+        "pdisp": st.sampled_from([False, False, True]),
     })
 
     @seed(args.seed * 1000 + args.worker)
@@ -460,6 +474,12 @@ def main():
         ["the verdict never depends on measured time: delays only steer which code path runs", "a case in which the client is alive but unresponsive to three sentinels is reported as stuck; a client that does not connect is inconclusive", "lines cut by a server-side drop are excluded from the expected set"],
         a.seed,
         regress_one=lambda c: run_case(c)[0],
+        # played on every run: the server drops the connection and is then unreachable (attempts
+        # time out instead of being refused) for longer than one connection timeout
+        extra_cases=[{"client": "radar", "items": [["g", 3], ["g", 7], ["b", 4], ["g", 11], ["g", 12]], "cuts": [], "delays": [0], "drop": {"at": 5000, "retry": True, "reset": r, "stall": True}, "limit": False} for r in (False, True)]
+        # ... and every malformed kind, each followed by a well-formed line, under every option set of both clients
+        + [{"client": "1090", "items": [x for k in range(len(MALFORMED)) for x in (["b", k], ["g", k % 60])], "cuts": [], "delays": [0], "drop": None, "limit": False, "dbg": d, "pdisp": pd} for d in (False, True) for pd in (False, True)]
+        + [{"client": "radar", "items": [x for k in range(len(MALFORMED)) for x in (["b", k], ["g", (k + 30) % 60])], "cuts": [], "delays": [0], "drop": None, "limit": lim} for lim in (False, True)],
     )
     sys.exit(rc)
 
